@@ -341,6 +341,36 @@ def show_listing(d):
     return "d" + ";".join(out)
 
 
+def _unc(t):
+    return "" if t == "-" else "".join(chr(int(x)) for x in t.split(","))
+
+
+def pretty(token):
+    """result token -> readable text (for messages only)"""
+    try:
+        if token in ("N", "R") or token.startswith("E"):
+            return {"N": "None", "R": "reopened"}.get(token, token[1:] + " error")
+        if token.startswith("n"):
+            return token[1:]
+        if token.startswith("u"):
+            return repr(_unc(token[1:]))
+        tags = lambda t: "{}" if t == "~" else "{" + ", ".join(repr(_unc(x)) for x in t.split("/")) + "}"
+        if token.startswith("m"):
+            u, t = token[1:].split("|")
+            return "(%r, %s)" % (_unc(u), tags(t))
+        if token == "d~":
+            return "{}"
+        if token.startswith("d"):
+            out = []
+            for ent in token[1:].split(";"):
+                n, u, t = ent.split(">")
+                out.append("%r: %s" % (_unc(n), repr(_unc(u)) if t == "~" else "(%r, %s)" % (_unc(u), tags(t))))
+            return "{" + ", ".join(out) + "}"
+    except Exception:
+        pass
+    return token
+
+
 def call_real(ns, op, errors):
     """run one operation on a real NameServer; canonical result token"""
     k = op["k"]
@@ -710,16 +740,23 @@ class Real:
         return os.path.join(self.dir, "h%d.sqlite" % self.nfile)
 
 
-def classify(op, backend, what):
+def _names_of(token):
+    if not token.startswith("d") or token == "d~":
+        return set()
+    return {e.split(">")[0] for e in token[1:].split(";")}
+
+
+def classify(op, backend, what, got="", expect="", ns=None, errors=None):
     """stable signature of a failing operation"""
     k = op["k"]
     if backend == "sql" and what == "result":
-        if k in ("list", "rm") and op.get("prefix") and not (k == "rm" and op.get("name")):
-            return "sql-prefix-not-literal"
-        if k == "rm" and op.get("prefix"):
-            return "sql-prefix-not-literal"
-        if k == "yp" and op.get("all") and "L" in op["all"] and len(set(op["all"]["L"])) != len(op["all"]["L"]):
-            return "sql-meta-all-duplicate"
+        if op.get("prefix") and ((k == "list" and got.startswith("d") and expect.startswith("d") and _names_of(got) > _names_of(expect))
+                                 or (k == "rm" and got.startswith("n") and expect.startswith("n") and int(got[1:]) > int(expect[1:]))):
+            return "sql-prefix-not-literal"      # matched more than the literal prefix
+        if k == "yp" and op.get("all") and "L" in op["all"] and len(set(op["all"]["L"])) != len(op["all"]["L"]) and ns is not None:
+            dedup = dict(op, all={"L": sorted(set(op["all"]["L"]))})
+            if call_real(ns, dedup, errors) == expect:
+                return "sql-meta-all-duplicate"  # the same query without the repeated tag is answered correctly
     return "%s-%s-%s" % (backend, k, what)
 
 
@@ -762,7 +799,7 @@ def run_history(R, ops, fault_plan, rng_after, do_mem=True):
                 mem_tokens.append(t)
                 mem_out.append(got + "#0")
                 if got != expect:
-                    failures.append((classify(op, "mem", "result"), "memory back-end: %s -> %s, a plain map answers %s" % (describe(op), got[:300], expect[:300]), idx, "mem"))
+                    failures.append((classify(op, "mem", "result", got, expect), "memory back-end: %s -> %s, a plain map answers %s" % (describe(op), pretty(got)[:300], pretty(expect)[:300]), idx, "mem"))
                     mem_alive = False
             if sql_alive:
                 if idx in fault_plan:
@@ -787,7 +824,7 @@ def run_history(R, ops, fault_plan, rng_after, do_mem=True):
                         sql_out.append(got)
                         after = real_snapshot(sql)
                         if got != "Estorage":
-                            failures.append(("sql-fault-not-raised", "%s with statement %d failing returned %s instead of raising" % (describe(op), k, got[:200]), idx, "sql"))
+                            failures.append(("sql-fault-not-raised", "%s with statement %d failing returned %s instead of raising" % (describe(op), k, pretty(got)[:200]), idx, "sql"))
                             sql_alive = False
                             break
                         if after != before:
@@ -806,7 +843,7 @@ def run_history(R, ops, fault_plan, rng_after, do_mem=True):
                     sql_out.append("%s#%d" % (got, F.count))
                     F.reset()
                 if got != expect:
-                    failures.append((classify(op, "sql", "result"), "sqlite back-end: %s -> %s, a plain map answers %s" % (describe(op), got[:300], expect[:300]), idx, "sql"))
+                    failures.append((classify(op, "sql", "result", got, expect, sql, errors), "sqlite back-end: %s -> %s, a plain map answers %s" % (describe(op), pretty(got)[:300], pretty(expect)[:300]), idx, "sql"))
                     sql_alive = False
                 elif op["k"] in ("list", "yp", "rm") and len(ref.m) >= 1:
                     if expect.startswith("d") and expect != "d~" and expect.count(";") + 1 < len(ref.m):
@@ -992,8 +1029,8 @@ def replay(ctx, case):
         res = run_history(R, c["ops"], set(c.get("faults", [])), random.Random(0))
         for o, in zip(c["ops"]):
             print("  ", describe(o))
-        print("memory :", " ".join(res["mem_out"])[:1500])
-        print("sqlite :", " ".join(res["sql_out"])[:1500])
+        print("memory :", " | ".join(pretty(t.split("#")[0]) for t in res["mem_out"])[:2500])
+        print("sqlite :", " | ".join(pretty(t.split("#")[0]) for t in res["sql_out"])[:2500])
         for sig, desc, idx, backend in res["failures"]:
             print("FAIL [%s] at operation %d: %s" % (sig, idx, desc))
             reproduced = 1
